@@ -88,6 +88,13 @@ func (e Event) String() string {
 
 func ms(d time.Duration) float64 { return float64(d) / float64(time.Millisecond) }
 
+// LongHoldGate: a gate value >= LongHoldGate keeps the invocation parked for at least LongHold (used by C07 to give a
+// continuous check ample time — two orders of magnitude more than its delay — to be re-run while its scope executes).
+const (
+	LongHoldGate = 100
+	LongHold     = 250 * time.Millisecond
+)
+
 type parkedInv struct {
 	tag   string
 	n     int
@@ -232,8 +239,20 @@ func (l *Lab) controller(stop <-chan struct{}) {
 				}
 				return l.parked[i].seq < l.parked[j].seq
 			})
-			p := l.parked[0]
-			l.parked = l.parked[1:]
+			// a long hold (prio >= LongHoldGate) is not released before LongHold has elapsed
+			idx := -1
+			for i, q := range l.parked {
+				if q.prio < LongHoldGate || time.Since(q.since) >= LongHold {
+					idx = i
+					break
+				}
+			}
+			if idx < 0 {
+				l.mu.Unlock()
+				continue
+			}
+			p := l.parked[idx]
+			l.parked = append(l.parked[:idx], l.parked[idx+1:]...)
 			l.lastProgress = time.Now()
 			l.events = append(l.events, Event{Kind: EvRelease, Tag: p.tag, N: p.n, PlanIdx: -1, At: time.Since(l.start)})
 			close(p.ch)
